@@ -33,7 +33,8 @@ def cases(rng, tier):
 
 
 def search(rng, tier, near):
-    return K.gen_checker_cases(rng, 40000)
+    return K.gen_checker_cases(rng, 40000) + C.build_cases(rng, 1200, calls_per=3, style='kw', tag='c01x') \
+        + C.scenario_cases(rng, 300, style='kw', tag='c01y') + _C10.build_cases(rng, 300, 'c01z')
 
 
 def run_impl(cases):
